@@ -33,6 +33,7 @@ def main(argv=None):
     ap.add_argument("--out", required=True)
     ap.add_argument("--budget", type=float, default=1e9)
     ap.add_argument("--replay", default=None)
+    ap.add_argument("--subsample", type=int, default=1, help="run every K-th case only (second pass under python -O)")
     a = ap.parse_args(argv)
 
     faulthandler.enable()
@@ -70,6 +71,8 @@ def main(argv=None):
         mine = [(rp["case"]["family"], rp["case"]["params"], 1.0, 0)]
     else:
         allc = order_cases(mod.cases(a.tier, a.seed))
+        if a.subsample > 1:
+            allc = allc[a.seed % a.subsample :: a.subsample]
         mine = allc[a.shard :: a.nshards]
 
     skipped = 0
@@ -99,6 +102,10 @@ def main(argv=None):
             ctx.monitor_error("finish", exc)
 
     out = ctx.dump()
+    out["pymode"] = "optimized" if sys.flags.optimize else "default"
+    for f in out["failures"]:
+        for rec in f["records"]:
+            rec["pymode"] = out["pymode"]
     out["skipped_budget"] = skipped
     out["assigned"] = len(mine)
     out["reach"] = reach.result()
